@@ -53,6 +53,10 @@ func NewWorld(ctx *Ctx, pkgs ...string) *World {
 			continue
 		}
 		st = &absint.State{Heap: out.Heap}
+		if ip.ZeroGlobalPkgs == nil {
+			ip.ZeroGlobalPkgs = map[string]bool{}
+		}
+		ip.ZeroGlobalPkgs[pk.Pkg.Path()] = true
 		for _, im := range ip.Imprec {
 			if strings.Contains(im, "unmodelled external") {
 				continue // initialisers calling into the standard library yield opaque values
